@@ -164,6 +164,12 @@ SEEDS = {
     "C16h-collimator-range-check-full-gap": ("C16", "a collimator opening between the pipe radius and the full gap (|gap|/2 <= r < |gap|): the factory's range check lost its /2, a NEGATIVE constant resistance Z0/pi ln(outer/inner) is added", ["C10"]),
     "C19h-modulation-queue-refilled-from-zero": ("C19", "phase modulation and a run longer than 16384 steps whose modulation period does not divide 16384 steps: the queue is filled in blocks and every refill restarts the sine at phase 0", ["C17"]),
     "C20h-unsigned-values-above-int-max-refused": ("C20", "a legal value of 2^31 or more for an unsigned 32-bit option (--outstep 4294967295): the validator reads it through a signed 32-bit conversion and refuses it as invalid", ["C13"]),
+    "C11h-nonregular-start-file-means-none": ("C11", "-i naming something that is not an existing regular file (a mistyped name, a directory): the '/dev/null means none' test was generalised to 'not a regular file', the run silently starts from the built-in Gaussian", ["C20"]),
+    "C12h-loop-length-rounded-to-output-cadence": ("C12", "an output cadence that does not divide the step count: the loop runs on to the next multiple of outstep, the number of simulated steps and the final state depend on -n", ["C10", "C14"]),
+    "C14h-projection-update-skipped-on-abort": ("C14", "a run without any impedance (no wake map) interrupted inside a step: the projection update at the end of the step is skipped, the final record's profile, population and moments belong to the previous step", []),
+    "C15h-upper-clamp-before-step": ("C15", "the stochastic tracker with a particle within a few noise widths of the last energy row (narrow energy range, particle clamped to the top row): the upper bound is applied before the damping/noise step is subtracted, the particle ends above row n-1", ["C17"]),
+    "C17h-txt-particles-sized-by-newlines": ("C17", "a text start distribution with more coordinate pairs than newline characters (last line unterminated, several pairs on one line): pairs are stored into a vector sized by the newline count", []),
+    "C18h-padding-cleared-by-bytes": ("C18", "one field object serving wake/padding and then CSR requests with two or more bunches: updateCSR clears the padding with memset(count in samples), only a quarter of it - left-overs of the train beyond nx + (nmax-nx)/4 are transformed along", ["C07", "C06"]),
     "C10-": ("C10", "", []),
     "C17-": ("C17", "", []),
 }
